@@ -121,12 +121,15 @@ Gen/SpdxJson.vos Gen/SpdxJson.vok Gen/SpdxJson.required_vos: Gen/SpdxJson.v
 Gen/Files.vo Gen/Files.glob Gen/Files.v.beautified Gen/Files.required_vo: Gen/Files.v 
 Gen/Files.vio: Gen/Files.v 
 Gen/Files.vos Gen/Files.vok Gen/Files.required_vos: Gen/Files.v 
+Gen/Template.vo Gen/Template.glob Gen/Template.v.beautified Gen/Template.required_vo: Gen/Template.v 
+Gen/Template.vio: Gen/Template.v 
+Gen/Template.vos Gen/Template.vok Gen/Template.required_vos: Gen/Template.v 
 WF/JsonPartition.vo WF/JsonPartition.glob WF/JsonPartition.v.beautified WF/JsonPartition.required_vo: WF/JsonPartition.v Spec/TablesSpec.vo Gen/Tables.vo Gen/SpdxJson.vo
 WF/JsonPartition.vio: WF/JsonPartition.v Spec/TablesSpec.vio Gen/Tables.vio Gen/SpdxJson.vio
 WF/JsonPartition.vos WF/JsonPartition.vok WF/JsonPartition.required_vos: WF/JsonPartition.v Spec/TablesSpec.vos Gen/Tables.vos Gen/SpdxJson.vos
-WF/FilesRegenerate.vo WF/FilesRegenerate.glob WF/FilesRegenerate.v.beautified WF/FilesRegenerate.required_vo: WF/FilesRegenerate.v Spec/TablesSpec.vo Gen/SpdxJson.vo Gen/Files.vo
-WF/FilesRegenerate.vio: WF/FilesRegenerate.v Spec/TablesSpec.vio Gen/SpdxJson.vio Gen/Files.vio
-WF/FilesRegenerate.vos WF/FilesRegenerate.vok WF/FilesRegenerate.required_vos: WF/FilesRegenerate.v Spec/TablesSpec.vos Gen/SpdxJson.vos Gen/Files.vos
+WF/FilesRegenerate.vo WF/FilesRegenerate.glob WF/FilesRegenerate.v.beautified WF/FilesRegenerate.required_vo: WF/FilesRegenerate.v Spec/TablesSpec.vo Gen/SpdxJson.vo Gen/Files.vo Gen/Template.vo
+WF/FilesRegenerate.vio: WF/FilesRegenerate.v Spec/TablesSpec.vio Gen/SpdxJson.vio Gen/Files.vio Gen/Template.vio
+WF/FilesRegenerate.vos WF/FilesRegenerate.vok WF/FilesRegenerate.required_vos: WF/FilesRegenerate.v Spec/TablesSpec.vos Gen/SpdxJson.vos Gen/Files.vos Gen/Template.vos
 WF/IdsParse.vo WF/IdsParse.glob WF/IdsParse.v.beautified WF/IdsParse.required_vo: WF/IdsParse.v Spec/TablesSpec.vo Gen/Tables.vo
 WF/IdsParse.vio: WF/IdsParse.v Spec/TablesSpec.vio Gen/Tables.vio
 WF/IdsParse.vos WF/IdsParse.vok WF/IdsParse.required_vos: WF/IdsParse.v Spec/TablesSpec.vos Gen/Tables.vos
@@ -136,9 +139,9 @@ Proofs/ExcGuard.vos Proofs/ExcGuard.vok Proofs/ExcGuard.required_vos: Proofs/Exc
 Proofs/TablesSound.vo Proofs/TablesSound.glob Proofs/TablesSound.v.beautified Proofs/TablesSound.required_vo: Proofs/TablesSound.v Spec/TablesSpec.vo
 Proofs/TablesSound.vio: Proofs/TablesSound.v Spec/TablesSpec.vio
 Proofs/TablesSound.vos Proofs/TablesSound.vok Proofs/TablesSound.required_vos: Proofs/TablesSound.v Spec/TablesSpec.vos
-Props/C12.vo Props/C12.glob Props/C12.v.beautified Props/C12.required_vo: Props/C12.v Props/Shipped.vo Spec/TablesSpec.vo Spec/Grammar.vo Gen/SpdxJson.vo Gen/Files.vo WF/JsonPartition.vo WF/FilesRegenerate.vo WF/IdsParse.vo Proofs/ExcGuard.vo Proofs/ParseGrammar.vo Proofs/MatchProof.vo Proofs/TablesSound.vo
-Props/C12.vio: Props/C12.v Props/Shipped.vio Spec/TablesSpec.vio Spec/Grammar.vio Gen/SpdxJson.vio Gen/Files.vio WF/JsonPartition.vio WF/FilesRegenerate.vio WF/IdsParse.vio Proofs/ExcGuard.vio Proofs/ParseGrammar.vio Proofs/MatchProof.vio Proofs/TablesSound.vio
-Props/C12.vos Props/C12.vok Props/C12.required_vos: Props/C12.v Props/Shipped.vos Spec/TablesSpec.vos Spec/Grammar.vos Gen/SpdxJson.vos Gen/Files.vos WF/JsonPartition.vos WF/FilesRegenerate.vos WF/IdsParse.vos Proofs/ExcGuard.vos Proofs/ParseGrammar.vos Proofs/MatchProof.vos Proofs/TablesSound.vos
+Props/C12.vo Props/C12.glob Props/C12.v.beautified Props/C12.required_vo: Props/C12.v Props/Shipped.vo Spec/TablesSpec.vo Spec/Grammar.vo Gen/SpdxJson.vo Gen/Files.vo Gen/Template.vo WF/JsonPartition.vo WF/FilesRegenerate.vo WF/IdsParse.vo Proofs/ExcGuard.vo Proofs/ParseGrammar.vo Proofs/MatchProof.vo Proofs/TablesSound.vo
+Props/C12.vio: Props/C12.v Props/Shipped.vio Spec/TablesSpec.vio Spec/Grammar.vio Gen/SpdxJson.vio Gen/Files.vio Gen/Template.vio WF/JsonPartition.vio WF/FilesRegenerate.vio WF/IdsParse.vio Proofs/ExcGuard.vio Proofs/ParseGrammar.vio Proofs/MatchProof.vio Proofs/TablesSound.vio
+Props/C12.vos Props/C12.vok Props/C12.required_vos: Props/C12.v Props/Shipped.vos Spec/TablesSpec.vos Spec/Grammar.vos Gen/SpdxJson.vos Gen/Files.vos Gen/Template.vos WF/JsonPartition.vos WF/FilesRegenerate.vos WF/IdsParse.vos Proofs/ExcGuard.vos Proofs/ParseGrammar.vos Proofs/MatchProof.vos Proofs/TablesSound.vos
 Spec/Version.vo Spec/Version.glob Spec/Version.v.beautified Spec/Version.required_vo: Spec/Version.v Model/Match.vo Spec/MatchSpec.vo Spec/WF.vo
 Spec/Version.vio: Spec/Version.v Model/Match.vio Spec/MatchSpec.vio Spec/WF.vio
 Spec/Version.vos Spec/Version.vok Spec/Version.required_vos: Spec/Version.v Model/Match.vos Spec/MatchSpec.vos Spec/WF.vos
@@ -169,9 +172,9 @@ Proofs/Cost.vos Proofs/Cost.vok Proofs/Cost.required_vos: Proofs/Cost.v Model/Ti
 Props/C13.vo Props/C13.glob Props/C13.v.beautified Props/C13.required_vo: Props/C13.v Props/Shipped.vo Model/ApiHist.vo Proofs/Purity.vo
 Props/C13.vio: Props/C13.v Props/Shipped.vio Model/ApiHist.vio Proofs/Purity.vio
 Props/C13.vos Props/C13.vok Props/C13.required_vos: Props/C13.v Props/Shipped.vos Model/ApiHist.vos Proofs/Purity.vos
-Props/C14.vo Props/C14.glob Props/C14.v.beautified Props/C14.required_vo: Props/C14.v Props/Shipped.vo Model/Ticks.vo Spec/Lex.vo Proofs/ScanRef.vo Proofs/Cost.vo Proofs/ParseGrammar.vo
-Props/C14.vio: Props/C14.v Props/Shipped.vio Model/Ticks.vio Spec/Lex.vio Proofs/ScanRef.vio Proofs/Cost.vio Proofs/ParseGrammar.vio
-Props/C14.vos Props/C14.vok Props/C14.required_vos: Props/C14.v Props/Shipped.vos Model/Ticks.vos Spec/Lex.vos Proofs/ScanRef.vos Proofs/Cost.vos Proofs/ParseGrammar.vos
+Props/C14.vo Props/C14.glob Props/C14.v.beautified Props/C14.required_vo: Props/C14.v Props/Shipped.vo Model/Ticks.vo Spec/Lex.vo Proofs/ScanRef.vo Proofs/Cost.vo Proofs/ParseGrammar.vo Proofs/ParseCost.vo
+Props/C14.vio: Props/C14.v Props/Shipped.vio Model/Ticks.vio Spec/Lex.vio Proofs/ScanRef.vio Proofs/Cost.vio Proofs/ParseGrammar.vio Proofs/ParseCost.vio
+Props/C14.vos Props/C14.vok Props/C14.required_vos: Props/C14.v Props/Shipped.vos Model/Ticks.vos Spec/Lex.vos Proofs/ScanRef.vos Proofs/Cost.vos Proofs/ParseGrammar.vos Proofs/ParseCost.vos
 Spec/Spellings.vo Spec/Spellings.glob Spec/Spellings.v.beautified Spec/Spellings.required_vo: Spec/Spellings.v Model/Api.vo Spec/WF.vo
 Spec/Spellings.vio: Spec/Spellings.v Model/Api.vio Spec/WF.vio
 Spec/Spellings.vos Spec/Spellings.vok Spec/Spellings.required_vos: Spec/Spellings.v Model/Api.vos Spec/WF.vos
@@ -220,3 +223,6 @@ Proofs/OnlyPairs.vos Proofs/OnlyPairs.vok Proofs/OnlyPairs.required_vos: Proofs/
 Proofs/RoundTrip.vo Proofs/RoundTrip.glob Proofs/RoundTrip.v.beautified Proofs/RoundTrip.required_vo: Proofs/RoundTrip.v Model/Api.vo Spec/Lex.vo Spec/Grammar.vo Spec/Eval.vo Spec/WF.vo Spec/Units.vo Spec/Spellings.vo Proofs/BytesFacts.vo Proofs/ScanRef.vo Proofs/NodeInv.vo Proofs/Sat.vo Proofs/ApiFacts.vo Proofs/Laws.vo Proofs/MatchProof.vo Proofs/WFSound.vo Proofs/Split.vo Proofs/Lexo.vo Proofs/Respell.vo Proofs/Replace.vo Proofs/SameParse.vo Proofs/ParseGrammar.vo Proofs/CaseFold.vo Proofs/Congruence.vo
 Proofs/RoundTrip.vio: Proofs/RoundTrip.v Model/Api.vio Spec/Lex.vio Spec/Grammar.vio Spec/Eval.vio Spec/WF.vio Spec/Units.vio Spec/Spellings.vio Proofs/BytesFacts.vio Proofs/ScanRef.vio Proofs/NodeInv.vio Proofs/Sat.vio Proofs/ApiFacts.vio Proofs/Laws.vio Proofs/MatchProof.vio Proofs/WFSound.vio Proofs/Split.vio Proofs/Lexo.vio Proofs/Respell.vio Proofs/Replace.vio Proofs/SameParse.vio Proofs/ParseGrammar.vio Proofs/CaseFold.vio Proofs/Congruence.vio
 Proofs/RoundTrip.vos Proofs/RoundTrip.vok Proofs/RoundTrip.required_vos: Proofs/RoundTrip.v Model/Api.vos Spec/Lex.vos Spec/Grammar.vos Spec/Eval.vos Spec/WF.vos Spec/Units.vos Spec/Spellings.vos Proofs/BytesFacts.vos Proofs/ScanRef.vos Proofs/NodeInv.vos Proofs/Sat.vos Proofs/ApiFacts.vos Proofs/Laws.vos Proofs/MatchProof.vos Proofs/WFSound.vos Proofs/Split.vos Proofs/Lexo.vos Proofs/Respell.vos Proofs/Replace.vos Proofs/SameParse.vos Proofs/ParseGrammar.vos Proofs/CaseFold.vos Proofs/Congruence.vos
+Proofs/ParseCost.vo Proofs/ParseCost.glob Proofs/ParseCost.v.beautified Proofs/ParseCost.required_vo: Proofs/ParseCost.v Model/Ticks.vo Spec/Grammar.vo Proofs/ParseGrammar.vo
+Proofs/ParseCost.vio: Proofs/ParseCost.v Model/Ticks.vio Spec/Grammar.vio Proofs/ParseGrammar.vio
+Proofs/ParseCost.vos Proofs/ParseCost.vok Proofs/ParseCost.required_vos: Proofs/ParseCost.v Model/Ticks.vos Spec/Grammar.vos Proofs/ParseGrammar.vos
